@@ -219,6 +219,21 @@ def run(ctx):
             else:
                 batch.add(n, 113, "Bool.eqb", f"sim 60 (tree_ng {d} Async $fuel $ng $pv) {c_stree(N, real_tree(evs))}", "true")
             dist["tree_checked"] = dist.get("tree_checked", 0) + 1
+        # top-level runner.map: a map run span holding one run span per input combination (EventsTree.tree_map_top, C12_model_top_map)
+        if (rc.get("map") and not rc.get("cache") and not rc.get("select") and obs["status"] in ("mapped", "raised")
+                and not has_kind(g, ("interrupt",))):
+            engine.define_case(batch, n, N, g, rc)
+            d = pdl.graph_depth(g) + 1
+            ov = c_list([c_pos(N(x)) for x in rc["map"]["over"]])
+            md = "MProduct" if rc["map"].get("mode") == "product" else "MZip"
+            cont = c_bool(rc["error_handling"] == "continue")
+            if rc["runner"] == "sync":
+                batch.add(n, 114, "Bool.eqb", f"match tree_map_top {d} Sync $fuel $ng $pv {ov} {md} {cont} with Some t => "
+                          f"events_eqb (lin_root t) {c_list([c_event(N, e) for e in evs])} | None => false end", "true")
+            else:
+                batch.add(n, 115, "Bool.eqb", f"match tree_map_top {d} Async $fuel $ng $pv {ov} {md} {cont} with Some t => "
+                          f"sim 60 t {c_stree(N, real_tree(evs))} | None => false end", "true")
+            dist["map_tree_checked"] = dist.get("map_tree_checked", 0) + 1
         # a nested run is parented to the span of the node that launched it (generated wrappers name their graph <node>_g)
         span_node = {e["span"]: e.get("node_name") for e in evs if e["type"] == "NodeStartEvent"}
         for e in evs:
@@ -240,7 +255,7 @@ def run(ctx):
         ctx.violation("harness", res["error"])
     for (ci, code, mv, real, mexp) in res["failed"]:
         case, evs, status = cases_keep.get(ci, ({}, [], None))
-        if code in (112, 113):
+        if code in (112, 113, 114, 115):
             ctx.violation("correspondence", "the span tree of the run differs from the tree of the engine model's run (EventsTree.tree_ng)"
                           + (": the synchronous stream is not its depth-first stream" if code == 112 else " (up to the order within a superstep)"),
                           case=case, observed={"events": [(e["type"], e["span"], e["parent"], e.get("node_name"), e.get("status")) for e in evs], "model": mv[:800]})
